@@ -27,6 +27,8 @@ pub struct OneResult {
     pub skipped: bool,
     /// results-only digest of this run, comparable across processes and builds
     pub xdigest: Option<u64>,
+    /// digest of the context-switch sequence alone (distinct-interleavings measure)
+    pub interleaving: Option<u64>,
 }
 
 impl OneResult {
@@ -68,6 +70,7 @@ pub struct WorkerOut {
     pub digest: u64,
     /// (run index, results-only digest) for runs below the cross-process horizon
     pub run_digests: Vec<(u64, u64)>,
+    pub interleavings: Vec<u64>,
 }
 
 /// run indices handled by `worker` of `nworkers`: index ≡ worker (mod nworkers)
@@ -83,6 +86,7 @@ pub fn worker_loop(
     let mut out = WorkerOut { worker, ..Default::default() };
     let mut nontrivial: BTreeSet<u64> = BTreeSet::new();
     let mut per_class: BTreeMap<String, u64> = BTreeMap::new();
+    let mut inter: BTreeSet<u64> = BTreeSet::new();
     let xhorizon = p.xproc_runs(thorough);
     let mut i = worker;
     let tag = format!("{}-{}", p.id(), if thorough { "thorough" } else { "quick" });
@@ -97,6 +101,9 @@ pub fn worker_loop(
         out.runs += 1;
         if r.skipped {
             out.skipped += 1;
+        }
+        if let Some(d) = r.interleaving {
+            inter.insert(d);
         }
         if let Some(d) = r.xdigest {
             if i < xhorizon {
@@ -132,6 +139,7 @@ pub fn worker_loop(
     }
     out.nontrivial = nontrivial.into_iter().collect();
     out.found_per_class = per_class;
+    out.interleavings = inter.into_iter().collect();
     out
 }
 
